@@ -13,6 +13,9 @@
 EXTENDS Pipes, Json, TLC
 
 CONSTANTS McMode, McStates, McMulti, McFlat, McLocal, McSlow, McAddOnly,
+          McPipes,   \* "plain": one binding call, s -> s
+                     \* "fan"  : two binding calls, s -> s and s -> s2 (Bind twice)
+                     \* "err"  : target states named Err*: add {Exception, s}, remove {s}
           MaxSrc, MaxExt, MultiOps, SrcPriority, Emit
 
 VARIABLES next,    \* external target mutations so far
@@ -24,9 +27,19 @@ StatesA == {"A"}
 StatesAB == {"A", "B"}
 NoStates == {}
 
-McCfg == [mode |-> McMode, states |-> McStates, multi |-> McMulti, tmulti |-> McMulti,
+PipesOf(S) ==
+  IF McMode = "any" THEN {}
+  ELSE IF McPipes = "err"
+  THEN {[b |-> 1, s |-> s, add |-> {"Exception", s}, rem |-> {s}] : s \in S}
+  ELSE {[b |-> 1, s |-> s, add |-> {s}, rem |-> {s}] : s \in S}
+       \cup IF McPipes = "fan"
+            THEN {[b |-> 2, s |-> s, add |-> {s \o "2"}, rem |-> {s \o "2"}] : s \in S}
+            ELSE {}
+
+McCfg == [mode |-> McMode, states |-> McStates, multi |-> McMulti,
+          tmulti |-> IF McPipes = "err" THEN McMulti \cup {"Exception"} ELSE McMulti,  \* built-in, Multi
           flat |-> McFlat, local |-> McLocal, addonly |-> McAddOnly, slow |-> McSlow,
-          addNames |-> [s \in McStates |-> {s}], remNames |-> [s \in McStates |-> {s}]]
+          pipes |-> PipesOf(McStates)]
 
 MCInit == InitWith(McCfg) /\ next = 0 /\ hist = <<>>
 
